@@ -24,3 +24,7 @@ def run(ctx):
     if not ctx.quick:
         J.schedule_sweep(ctx, "C04", True)
     J.run_scenarios(ctx, "C04", scenarios(ctx))
+    # the last hop: from the connection's queue to the application's handler, in the real server loop, with handlers that raise (clause L_once of Trace_Server)
+    from props import srv_judge as SJ
+    q = ctx.quick
+    SJ.run_scenarios(ctx, "C04", [dict(name="server-loop-hand-over", n=4 if q else 24, nticks=900 if q else 2500, kw=dict(nclients=4, p_raise=0.15, p_send=0.3, reuse_addr=0.2, replay=0.05))])
